@@ -367,7 +367,7 @@ func cmdCheck(args []string) int {
 				fmt.Printf("VIOLATION property=%s replay=%s%s\n", prop, path, replaySuffix(path))
 				exit = 1
 			}
-		} else if baseline[o.Name] || *update && false {
+		} else if baseline[o.Name] || (o.Kind == "frame" && baseline[o.Fn+"/frame:(declared)"]) {
 			violations++
 			path := writeReplay(prop, o, r, W, "")
 			fmt.Printf("VIOLATION property=%s replay=%s%s\n", prop, path, replaySuffix(path))
